@@ -182,7 +182,15 @@ def check_index(ctx, pkt, msg, where: str) -> None:
 
 def check_array(ctx, pkt, msg, dtm: str, line: str) -> None:
     code = pkt.code
-    if code not in ARRAY_ELEM or pkt.verb != " I" or not isinstance(msg.payload, list):
+    if code not in ARRAY_ELEM or pkt.verb != " I":
+        return
+    n_el, rem = divmod(len(pkt.payload), ARRAY_ELEM[code] * 2)
+    if not isinstance(msg.payload, list):
+        # a broadcast (src == dst) of an array-capable code carrying two or more whole elements is an array, whoever sends it
+        # (HVAC 22C9/3150 from 21:/32: use other layouts: only the heat-domain device types are judged)
+        if rem == 0 and n_el >= 2 and pkt.src.id == pkt.dst.id and pkt.src.type in ("01", "02", "10", "12", "22", "23", "03"):
+            ctx.violate("C05", "array_len", f"{code}:not_a_list", f"{line!r}: {n_el} elements on the wire but the payload is decoded as "
+                        f"one {type(msg.payload).__name__}: {str(msg.payload)[:200]}")
         return
     if pkt.src.type != ARRAY_SRC[code] or pkt.src.id != pkt.dst.id:
         ctx.probe("array_from_odd_source_not_judged")
